@@ -751,3 +751,8 @@ func (en *Engine) parseType(pkg *types.Package, s string) types.Type {
 	}
 	return nil
 }
+
+// inModule: is the package part of the repository under verification?
+func (en *Engine) inModule(pkgPath string) bool {
+	return en.ModulePath != "" && strings.HasPrefix(pkgPath, en.ModulePath)
+}
